@@ -416,7 +416,14 @@ def lab_run(task, spec, args):
             for j, item in enumerate(value):
                 if fault_kind == 'raise_in_generator' and j == 1:
                     raise LabFault(f'{full} generator fault uid={uid}')
-                yield item
+                if j == 0 and isinstance(item, list) and len(item) == 2:
+                    # an item that is handed out while still being filled (a session that is opened, yielded and completed by later events):
+                    # the result of the task is the finished item, for the computing chain and for every later one
+                    open_item = [item[0]]
+                    yield open_item
+                    open_item.append(item[1])
+                else:
+                    yield item
         return gen()
     if kind == 'figure':
         import matplotlib.pyplot as plt
